@@ -19,10 +19,10 @@ pub fn def() -> PropDef {
         quick_cases: 3_000_000,
         thorough_cases: 120_000_000,
         rule: "case = one conversion call: from_slice/TryFrom (Fr,Fq) and from_hash on byte strings of every length 0..=70 (all-zero, all-0xFF, p-1, p, p+1, 2^256-1, k*p and k*(r-1) +-1 near 2^512, uniform), interpret on 64 bytes, from_str on digit strings up to 160 chars and strings with one foreign character injected, to_big_endian into buffers of length 0..=70, set_bit for indices 0..=300; non-trivial = length != 32, or value >= p before reduction, or a rejected input, or a bit index that changes the value / crosses r; distinct by (operation, input)",
-        required: &[
+        required: crate::runner::req(&[
             "op:from_slice", "op:interpret", "op:from_hash", "op:from_str", "op:to_big_endian", "op:set_bit", "len:0", "len:1", "len:31", "len:32", "len:33",
             "len:64", "len:65", "len:70", "bytes:reduced", "str:rejected", "str:accepted", "set_bit:overflow-r", "set_bit:index>=256", "hash:reduced", "buf:wrong-size",
-        ],
+        ]),
         enumerate: Some(enumerate),
         enumerate_note: "every length 0..=70 x {all-zero, all-0xFF, uniform} x {Fr,Fq from_slice, from_hash}; every bit index 0..=300 x {set, clear} on 4 fixed values; every buffer length 0..=70",
         also_dbg: false,
